@@ -217,6 +217,19 @@ def run(chk, tier, seed):
             shutil.copy(path, plain)
             evs = []
             rs = []
+            if vn == "l6" and tag in ("dfs-400-ssd", "wdfs", "hfe", "dsd", "mmb"):
+                # the same two files named through symbolic links (the link's own name carries the extension)
+                ldir = os.path.join(sub, "links")
+                os.makedirs(ldir, exist_ok=True)
+                lp, lg = os.path.join(ldir, os.path.basename(plain)), os.path.join(ldir, os.path.basename(gzpath))
+                os.symlink(plain, lp)
+                os.symlink(gzpath, lg)
+                for cmd in cmds[:4]:
+                    a = common.run([dfs, "--file", lp] + cmd, cwd=sub, timeout=120)
+                    b = common.run([dfs, "--file", lg] + cmd, cwd=sub, timeout=120)
+                    evs.append(dict(e="same", tag=tag, variant="l6-symlink", cmd=cmd[:2], same=1 if (a.out == b.out and a.rc == b.rc) else 0,
+                                    rc=a.rc if a.rc is not None else -9, rc_gz=b.rc if b.rc is not None else -9, clean=1 if b.ok_alphabet() else 0,
+                                    err_gz=b.err.decode("latin1")[:200]))
             for ci, cmd in enumerate(cmds):
                 if vn in ("l6", "mod512=511") and ci in (0, 5, 8) and tag != "mmb-full" and (not quick or ci != 8):
                     # ReadStack.tla: the same run seen from inside; both files belong to one group, so every drive sector the
